@@ -476,6 +476,16 @@ def check_wrapper_case(case):
                 return f"{ctor}.distance = {got}, core = non-finite"
         elif bits(got) != bits(want):
             return f"{ctor}.distance({exp['a']},{exp['b']}) = {got!r}, core = {want!r}"
+        # equal arguments: also the very same Python object passed twice (the core has no notion
+        # of object identity: d(s, s) is whatever its formula gives for equal values)
+        if exp["a"] == exp["b"]:
+            s_ = mk(exp["a"])
+            got = sp.distance(s_, s_)
+            if want == "nan":
+                if not math.isnan(got) and math.isfinite(got):
+                    return f"{ctor}.distance(s, s) = {got} for one object s, core = non-finite"
+            elif bits(got) != bits(want):
+                return f"{ctor}.distance(s, s) = {got!r} for one object s = {exp['a']}, core = {want!r}"
     return None
 
 
